@@ -79,8 +79,21 @@ func (w *World) mustSink(fn *ssa.Function, v ssa.Value, from ssa.Instruction, sp
 	res := &sinkResult{ok: true}
 	// consuming instructions of v
 	consumes := map[ssa.Instruction]bool{}
-	if v.Referrers() != nil {
-		for _, ref := range *v.Referrers() {
+	type useOf struct {
+		ref ssa.Instruction
+		val ssa.Value
+	}
+	var uses []useOf
+	for _, vv := range append([]ssa.Value{v}, w.sinkAliases[v]...) {
+		if vv.Referrers() != nil {
+			for _, ref := range *vv.Referrers() {
+				uses = append(uses, useOf{ref, vv})
+			}
+		}
+	}
+	{
+		for _, u := range uses {
+			ref, v := u.ref, u.val
 			c, ok := ref.(ssa.CallInstruction)
 			if !ok {
 				continue
@@ -139,7 +152,38 @@ func (w *World) mustSink(fn *ssa.Function, v ssa.Value, from ssa.Instruction, sp
 				}
 				for _, r2 := range *x.Referrers() {
 					if ld, ok := r2.(*ssa.UnOp); ok && ld.Op == token.MUL {
-						loops = append(loops, elemLoop{ld, ld, loopHeaderOf(ld.Block())})
+						// `s[i]` written several times in one iteration is one element: the
+						// load that dominates the others stands for all of them
+						hdr := loopHeaderOf(ld.Block())
+						merged := false
+						for k := range loops {
+							fst, isLd := loops[k].elem.(*ssa.UnOp)
+							if !isLd || loops[k].hdr != hdr || hdr == nil {
+								continue
+							}
+							fa, isIA := fst.X.(*ssa.IndexAddr)
+							if !isIA || fa.X != x.X || fa.Index != x.Index {
+								continue
+							}
+							switch {
+							case instrDominates(fst, ld):
+								w.addSinkAlias(fst, ld)
+								merged = true
+							case instrDominates(ld, fst):
+								w.addSinkAlias(ld, fst)
+								for _, a := range w.sinkAliases[fst] {
+									w.addSinkAlias(ld, a)
+								}
+								loops[k] = elemLoop{ld, ld, hdr}
+								merged = true
+							}
+							if merged {
+								break
+							}
+						}
+						if !merged {
+							loops = append(loops, elemLoop{ld, ld, hdr})
+						}
 					}
 				}
 			case *ssa.Range:
@@ -276,10 +320,12 @@ func (w *World) sinkOnPaths(fn *ssa.Function, from ssa.Instruction, consumes map
 // without passing a consuming instruction of elem.
 func (w *World) sinksBeforeBackEdge(fn *ssa.Function, elem ssa.Value, at ssa.Instruction, hdr *ssa.BasicBlock, spec *sinkSpec, depth int) bool {
 	consumes := map[ssa.Instruction]bool{}
-	if elem.Referrers() != nil {
-		for _, ref := range *elem.Referrers() {
-			if c, ok := ref.(ssa.CallInstruction); ok && len(argIndexOf(c.Common(), elem)) > 0 {
-				consumes[c] = true // which of them are sinks was established by mustSink
+	for _, ev := range append([]ssa.Value{elem}, w.sinkAliases[elem]...) {
+		if ev.Referrers() != nil {
+			for _, ref := range *ev.Referrers() {
+				if c, ok := ref.(ssa.CallInstruction); ok && len(argIndexOf(c.Common(), ev)) > 0 {
+					consumes[c] = true // which of them are sinks was established by mustSink
+				}
 			}
 		}
 	}
@@ -379,4 +425,16 @@ func appendUniqueAll(xs []int, ys []int) []int {
 		xs = appendUnique(xs, y)
 	}
 	return xs
+}
+
+func (w *World) addSinkAlias(v, alias ssa.Value) {
+	if w.sinkAliases == nil {
+		w.sinkAliases = map[ssa.Value][]ssa.Value{}
+	}
+	for _, a := range w.sinkAliases[v] {
+		if a == alias {
+			return
+		}
+	}
+	w.sinkAliases[v] = append(w.sinkAliases[v], alias)
 }
